@@ -69,6 +69,9 @@ def one(ctx, w, cfg, use_strace):
     calls = None
     if use_strace:
         rc, calls, out = strace_util.trace(ctx.binary, d, l3gen.cfg_args(cfg))
+    elif cfg.get("located"):
+        # started elsewhere with -d <tree>: every path the push touches is below that directory
+        rc, out = ws.run_push(ctx.binary, os.path.dirname(d), ["-d", d if cfg["located"] == "abs" else os.path.basename(d)] + l3gen.cfg_args(cfg), timeout=30)
     else:
         rc, out = ws.run_push(ctx.binary, d, l3gen.cfg_args(cfg), timeout=30)
     probs = []
@@ -138,6 +141,9 @@ def run(ctx):
         cfg["extra"] = ["-q"] + (["--mmap"] if rng.random() < 0.4 else [])
         hist["mmap" if "--mmap" in cfg["extra"] else "read"] += 1
         use_strace = (i % 4 == 0)
+        if not use_strace and rng.random() < 0.4:
+            cfg["located"] = rng.choice(["abs", "rel"])
+            hist["started elsewhere with -d"] += 1
         snap, probs, calls, d = one(ctx, w, cfg, use_strace)
         if "--mmap" not in cfg["extra"]:
             cases.append((w, cfg))
